@@ -540,10 +540,6 @@ package ssh
 //@ ensures implies(err == nil, pubKey != nil)
 //@ canary ensures err != nil
 
-//@ func ParseAuthorizedKey
-//@ props C38
-//@ modifies heap
-//@ ensures implies(err == nil, out != nil)
-//@ loop 2 invariant -1 <= rangeindex && rangeindex < len(in) && 0 <= optionStart && optionStart <= rangeindex + 1 && 0 <= i && i < len(in)
-//@ loop 3 invariant 0 <= i && i <= len(in)
-//@ canary ensures err != nil
+// ParseAuthorizedKey (the options scanner) is not under contract: its invariants need the value a variable
+// has after being reassigned inside the enclosing loop body (in = bytes.TrimSpace(in)), which an invariant of
+// an inner loop cannot name in this engine (the bare name denotes the enclosing loop's carried value).
